@@ -1,5 +1,5 @@
 ENGINES = [
-    {"name": "pyscan", "path": "vt/", "serves_properties": ["C01", "C02", "C04", "C05", "C07", "C12", "C10", "C11", "C13", "C19", "C20"],
+    {"name": "pyscan", "path": "vt/", "serves_properties": ["C01", "C02", "C03", "C04", "C05", "C07", "C12", "C10", "C11", "C13", "C19", "C20"],
      "kind_free_text": "runtime monitoring of the real Python scanner modules imported from /repo's working tree: recorded events judged by independent reference models, icontract invariants on live objects"},
 ]
 NOTES = "All checks: ./check <id> --tier quick|thorough [--seed N]; VERIF_SEED/VERIF_TIER honoured. Exit 0 held / 1 VIOLATION / 2 INCONCLUSIVE. See DESIGN.md."
@@ -52,3 +52,7 @@ add('C04', 'pyscan', 'runtime monitoring: generated declaration sets under gener
 add('C05', 'pyscan', 'runtime monitoring: structural closure rules (vt/girclosure.py) evaluated over every GIR the real pipeline emits for exotic and regular generated libraries, and over the repository\'s 24 GIR files, with the include closure loaded',
     'held on the executions produced: no introspectable callable/field/property/alias used an unresolved, non-introspectable, variadic, va_list, long long or long double type, lacked a transfer or a callback scope; every closure/destroy/length index in range; shadows, type-struct, accessor and invoker references mutual; thousands of demotions observed (the rules had something to decide); one data defect fixed (freetype2-2.0.gir)',
     'trusted: girclosure rules; GLib/GObject/Gio are stubs (references into them only checked for include-closure membership); skipped values not judged', 'DESIGN.md 4 C05')
+
+add('C03', 'pyscan', 'runtime monitoring with unique tokens: generated GObject-style libraries whose comment blocks carry a unique id in doc text, Since, Deprecated and an attribute; every token found on a GIR element identifies its block (attribution) and every block is compared with its target (completeness, identifier annotations)',
+    'held on the executions produced: no token on an element other than the one whose C name the block carries (decoys Class:x / Class::x / Class.x / near-miss names never matched), doc/version/deprecation/stability/attributes/skip/value/default-value/setter/getter/emitter/copy-free/ref-unref/value funcs/finish-sync-async on their targets; two defects found and fixed (emitter crash, alias version)',
+    'trusted: token scheme and identity function; a vfunc with an invoker may carry the invoker\'s block; rename-to/constructor/method roles judged by C04/C05', 'DESIGN.md 4 C03')
